@@ -50,7 +50,6 @@ Proof.
   - congruence.
   - intros Hm HF. apply Forall_app in HF as [F1 F2]. rewrite M2, M1; auto.
   - lia.
-  - lia.
   - intros x v H. destruct (L2 x v H) as [H2 | [H2 H3]].
     + destruct (L1 x v H2) as [H1 | [H1 H4]]; [left; auto | right; split; [apply in_or_app; auto | lia]].
     + right; split; [apply in_or_app; auto | lia].
@@ -85,7 +84,8 @@ Lemma fr_upd : forall m (f : node -> node) s,
 Proof.
   intros m f s Hc Hm. exists []. unfold upd; cbn. rewrite app_nil_r.
   repeat split; auto; try lia.
-  intros x v H. left. specialize (Hm (nd s)). unfold mem_part in Hm. inversion Hm as [[H1 H2 H3]].
+  intros x v H. left. specialize (Hm (nd s)). unfold mem_part in Hm.
+  assert (last_resp (f (nd s)) = last_resp (nd s)) as H2 by congruence.
   rewrite <- H2; exact H.
 Qed.
 
@@ -129,6 +129,36 @@ Qed.
 Lemma fr_send_next_idx : forall m d nx r su s, fr m s (send_next_idx d nx r su s).
 Proof. intros; unfold send_next_idx; apply fr_send; exact I. Qed.
 
+(* ---- association lists ---- *)
+Lemma aget_aset_same : forall {V} k (v : V) l, aget k (aset k v l) = Some v.
+Proof.
+  intros V k v l; induction l as [|[k' w] l IH]; cbn.
+  - rewrite N.eqb_refl; reflexivity.
+  - destruct (k <? k') eqn:E1; cbn; [rewrite N.eqb_refl; reflexivity|].
+    destruct (k =? k') eqn:E2; cbn; [rewrite N.eqb_refl; reflexivity|].
+    rewrite E2; exact IH.
+Qed.
+
+Lemma aget_aset_other : forall {V} k k' (v : V) l, k' <> k -> aget k' (aset k v l) = aget k' l.
+Proof.
+  intros V k k' v l Hne. assert (k' =? k = false) as E by (apply N.eqb_neq; exact Hne).
+  induction l as [|[k2 w] l IH]; cbn.
+  - rewrite E; reflexivity.
+  - destruct (k <? k2) eqn:E1; cbn; [rewrite E; reflexivity|].
+    destruct (k =? k2) eqn:E2; cbn.
+    + apply N.eqb_eq in E2; subst k2. rewrite E; reflexivity.
+    + destruct (k' =? k2); auto.
+Qed.
+
+Lemma aget_adel_other : forall {V} k k' (l : list (N * V)), k' <> k -> aget k' (adel k l) = aget k' l.
+Proof.
+  intros V k k' l Hne. assert (k' =? k = false) as E by (apply N.eqb_neq; exact Hne).
+  induction l as [|[k2 w] l IH]; cbn; [reflexivity|].
+  destruct (k =? k2) eqn:E2; cbn.
+  - apply N.eqb_eq in E2; subst k2. rewrite E; reflexivity.
+  - destruct (k' =? k2); auto.
+Qed.
+
 (* ---- membership ---- *)
 Lemma fr_do_change_cluster : forall m add x rev s, fr m s (fst (do_change_cluster add x rev s)).
 Proof.
@@ -136,28 +166,104 @@ Proof.
   destruct (xorb add rev).
   - destruct (self_is x (nd s) || smem x (others (nd s))); cbn; [apply fr_refl|].
     exists [TAdd x]. unfold emit; cbn.
-    destruct (role (nd s) =? LEADER) eqn:Hr; cbn.
-    + repeat split; auto; try lia; try (intros _ HF; inversion HF; subst; contradiction).
-      intros y v H. destruct (N.eq_dec y x) as [->|Hne].
-      * right. split; [left; reflexivity|].
-        assert (aget x (aset x (tnow s) (last_resp (nd s))) = Some (tnow s)) as E.
-        { clear. induction (last_resp (nd s)) as [|[k w] l IH]; cbn.
-          - rewrite N.eqb_refl; reflexivity.
-          - destruct (x <? k) eqn:E1; cbn; [rewrite N.eqb_refl; reflexivity|].
-            destruct (x =? k) eqn:E2; cbn; [rewrite N.eqb_refl; reflexivity|].
-            rewrite E2; exact IH. }
-        rewrite E in H; inversion H; lia.
-      * left. revert H. clear -Hne. induction (last_resp (nd s)) as [|[k w] l IH]; cbn.
-        -- destruct (y =? x) eqn:E; [apply N.eqb_eq in E; contradiction | auto].
-        -- destruct (x <? k) eqn:E1; cbn.
-           ++ destruct (y =? x) eqn:E; [apply N.eqb_eq in E; contradiction | auto].
-           ++ destruct (x =? k) eqn:E2; cbn.
-              ** apply N.eqb_eq in E2; subst k.
-                 destruct (y =? x) eqn:E; [apply N.eqb_eq in E; contradiction | auto].
-              ** destruct (y =? k); auto.
-    + repeat split; auto; try lia; try (intros _ HF; inversion HF; subst; contradiction).
+    split; [reflexivity|]. split; [repeat constructor|].
+    split; [destruct (role (nd s) =? LEADER); reflexivity|].
+    split; [intros _ HF; inversion HF; subst; contradiction|].
+    split; [lia|].
+    intros y v H. destruct (role (nd s) =? LEADER); cbn in H; [|left; exact H].
+    destruct (N.eq_dec y x) as [->|Hne].
+    + right. rewrite aget_aset_same in H. inversion H. split; [left; reflexivity | lia].
+    + left. rewrite aget_aset_other in H; auto.
   - destruct (self_is x (nd s)); cbn; [apply fr_refl|].
     destruct (negb (smem x (others (nd s)))); cbn; [apply fr_refl|].
     exists [TDrop x]. unfold emit; cbn.
-    repeat split; auto; try lia; try (intros _ HF; inversion HF; subst; contradiction).
+    split; [reflexivity|]. split; [repeat constructor|].
+    split; [reflexivity|].
+    split; [intros _ HF; inversion HF; subst; contradiction|].
+    split; [lia|]. intros y v H; left; exact H.
 Qed.
+
+(* ---- chaining tactic ---- *)
+Lemma fr_upd_false : forall (f : node -> node) s,
+  (forall n, core (f n) = core n) -> (forall n, last_resp (f n) = last_resp n) -> fr false s (upd f s).
+Proof.
+  intros f s Hc Hm. exists []. unfold upd; cbn. rewrite app_nil_r.
+  split; [reflexivity|]. split; [constructor|]. split; [apply Hc|]. split; [discriminate|].
+  split; [lia|]. intros x v H; left. rewrite <- Hm; exact H.
+Qed.
+
+Lemma fr_emit_false : forall o s, benign o -> fr false s (emit o s).
+Proof.
+  intros o s Hb. exists [o]. unfold emit; cbn.
+  split; [reflexivity|]. split; [repeat constructor; exact Hb|]. split; [reflexivity|].
+  split; [discriminate|]. split; [lia|]. intros x v H; left; exact H.
+Qed.
+
+Create HintDb frdb.
+#[export] Hint Resolve fr_refl fr_raise fr_fire fr_call_err fr_on_leader_changed fr_send_next_idx
+  fr_do_change_cluster : frdb.
+
+Ltac fr1 :=
+  first [ apply fr_refl
+        | solve [auto with frdb]
+        | apply fr_upd; intros; reflexivity
+        | apply fr_upd_false; intros; reflexivity
+        | apply fr_send; exact I
+        | apply fr_emit; exact I
+        | apply fr_emit_false; exact I ].
+Ltac frchain := repeat (first [ fr1 | eapply fr_trans; [| fr1] ]).
+
+Lemma fr_apply_membership : forall m rev es s, fr m s (apply_membership rev es s).
+Proof.
+  intros; unfold apply_membership. apply fr_fold. intros s0 x.
+  destruct (membership_of (ecmd x)) as [[a y]|]; frchain.
+Qed.
+#[export] Hint Resolve fr_apply_membership : frdb.
+
+Lemma fr_update_cluster : forall new s, fr false s (update_cluster new s).
+Proof.
+  intros; unfold update_cluster; cbv zeta.
+  eapply fr_trans; [| apply fr_fold; intros s0 x; cbv beta; frchain].
+  eapply fr_trans; [| fr1].
+  apply fr_fold. intros s0 x. frchain.
+Qed.
+#[export] Hint Resolve fr_update_cluster : frdb.
+
+Lemma fr_get_transmission : forall m e x s, fr m s (fst (get_transmission e x s)).
+Proof.
+  intros; unfold get_transmission.
+  destruct (negb (pid (sr (nd s)) =? 0)); cbn; [fr1|].
+  destruct (match aget x (trans (sr (nd s))) with Some t => Some t | None => _ end) as [[b off]|]; cbn; frchain.
+Qed.
+
+Lemma fr_cancel_transmission : forall m x s, fr m s (cancel_transmission x s).
+Proof. intros; unfold cancel_transmission; frchain. Qed.
+
+Lemma fr_set_transmission : forall m p s, fr m s (fst (set_transmission p s)).
+Proof.
+  intros; unfold set_transmission. destruct p; cbn; [fr1|].
+  destruct (if first then Some [] else incoming (sr (nd s))); cbn; [|fr1].
+  destruct last; cbn; frchain.
+Qed.
+#[export] Hint Resolve fr_get_transmission fr_cancel_transmission fr_set_transmission : frdb.
+
+Lemma fr_load_dump : forall e clear s, fr false s (load_dump e clear s).
+Proof.
+  intros; unfold load_dump.
+  destruct (stored (sr (nd s))) as [[sn|]|]; try fr1.
+  destruct (self_ver (nd s) <? s_ver sn); [fr1|].
+  match goal with |- fr _ _ (if dyn _ then update_cluster ?l ?X else ?Y) =>
+    assert (fr false s Y) as HY end.
+  { eapply fr_trans; [|fr1].
+    match goal with |- fr _ _ (if ?c then _ else _) => destruct c end.
+    - eapply fr_trans; [|fr1].
+      destruct clear; [frchain|].
+      destruct (get_entries _ _ _ _) as [|a [|b [|? ?]]]; frchain.
+      destruct (entry_eqb a (s_e0 sn) && entry_eqb b (s_e1 sn)); frchain.
+    - destruct clear; [frchain|].
+      destruct (get_entries _ _ _ _) as [|a [|b [|? ?]]]; frchain.
+      destruct (entry_eqb a (s_e0 sn) && entry_eqb b (s_e1 sn)); frchain. }
+  destruct (dyn (cf e)); [|exact HY].
+  eapply fr_trans; [exact HY | apply fr_update_cluster].
+Qed.
+#[export] Hint Resolve fr_load_dump : frdb.
